@@ -31,6 +31,9 @@ type c03Cfg struct {
 	// ResendNoRcpt (with Resend): before the re-send all recipients are removed from the messages, so the second
 	// attempt is refused locally before MAIL FROM — whatever the first attempt did, the messages are then NOT delivered
 	ResendNoRcpt bool `json:"resend_norcpt,omitempty"`
+	// Presend: history — BEFORE the judged Send the very same Msg objects were delivered once over a fault-free
+	// connection (all of them delivered, IsDelivered()==true); the judged Send then has to re-establish the truth
+	Presend bool `json:"presend,omitempty"`
 }
 
 type c03Case struct {
@@ -245,7 +248,15 @@ func c03Exec(r *vf.Run, cfg c03Cfg, c *vf.Chooser) (keys, whats []string) {
 	}
 	sess2 := &refsmtp.Session{Host: hx.Host, Caps: []string{"8BITMIME", "ENHANCEDSTATUSCODES"}}
 	conn2 := refsmtp.NewConn(sess2)
+	sess0 := &refsmtp.Session{Host: hx.Host, Caps: []string{"8BITMIME", "ENHANCEDSTATUSCODES"}}
+	conn0 := refsmtp.NewConn(sess0)
 	rig := &hx.Rig{Mk: func(n int) *refsmtp.Conn {
+		if cfg.Presend {
+			if n == 0 {
+				return conn0
+			}
+			n--
+		}
 		if n == 1 && cfg.Resend {
 			return conn2
 		}
@@ -262,6 +273,29 @@ func c03Exec(r *vf.Run, cfg c03Cfg, c *vf.Chooser) (keys, whats []string) {
 	if err != nil {
 		r.HarnessError("C03 NewClient: %v", err)
 		return
+	}
+	if cfg.Presend {
+		f.off = true
+		pan0, pw0 := vf.Guard(func() {
+			if err := cl.DialWithContext(context.Background()); err != nil {
+				r.HarnessError("C03 dial for the earlier delivery failed: %v", err)
+				return
+			}
+			_ = cl.Send(msgs...)
+			_ = cl.Close()
+		})
+		f.off = false
+		if pan0 {
+			add("panic/"+vf.PanicSite(pw0), "earlier fault-free delivery: "+pw0)
+			return
+		}
+		all := true
+		for _, m := range msgs {
+			all = all && m.IsDelivered()
+		}
+		if all {
+			r.Outcome("reached/delivered-before-the-judged-send")
+		}
 	}
 	pan, pw := vf.Guard(func() {
 		if err := cl.DialWithContext(context.Background()); err != nil {
@@ -524,7 +558,7 @@ func init() {
 	vf.Register(&vf.Check{
 		ID: "C03", Title: "only complete messages are committed; IsDelivered tells the truth",
 		Run: func(r *vf.Run) {
-			r.SetRule("batches of 1..3 messages over shapes {single, alternative, body+attachment, body+embed, body+attachment from a reader, body+embed from a read-seeker}; (history) the same Msg objects sent again over a fault-free connection, unchanged or after all their recipients were removed (second attempt refused before MAIL FROM); choice points: every content producer {ok, fail before first byte, fail after half — with a generic error, with io.EOF, with a wrapped io.EOF, with an error whose text reads like a 4yz / 5yz reply}, S/MIME signing of single-part messages {off, fails at render time before the first byte}, transport failure in each DATA phase at {never, first content byte, inside headers, inside a part body, just before the end, inside the end-of-data marker, inside the content of the last part}, server reply at NOOP/MAIL/RCPT/DATA/RSET {ok,4yz,5yz,drop,multi-line ok,421+disconnect} and at end-of-data {250,4yz,5yz,drop,251,multi-line 250}; all vectors with <= k deviations; oracle: server commit log vs. reference rendering of the same Msg objects; distinct by (configuration, choice vector)")
+			r.SetRule("batches of 1..3 messages over shapes {single, alternative, body+attachment, body+embed, body+attachment from a reader, body+embed from a read-seeker}; (history) the same Msg objects delivered once over a fault-free connection BEFORE the judged Send; (history) the same Msg objects sent again over a fault-free connection, unchanged or after all their recipients were removed (second attempt refused before MAIL FROM); choice points: every content producer {ok, fail before first byte, fail after half — with a generic error, with io.EOF, with a wrapped io.EOF, with an error whose text reads like a 4yz / 5yz reply}, S/MIME signing of single-part messages {off, fails at render time before the first byte}, transport failure in each DATA phase at {never, first content byte, inside headers, inside a part body, just before the end, inside the end-of-data marker, inside the content of the last part}, server reply at NOOP/MAIL/RCPT/DATA/RSET {ok,4yz,5yz,drop,multi-line ok,421+disconnect} and at end-of-data {250,4yz,5yz,drop,251,multi-line 250}; all vectors with <= k deviations; oracle: server commit log vs. reference rendering of the same Msg objects; distinct by (configuration, choice vector)")
 			r.Assume("the reference rendering is WriteTo on the same Msg after Send with faults disabled (default file encodings; repeatability itself is C11)",
 				"the transport's final CRLF after content that does not end in CRLF is not part of the message")
 			type job struct {
@@ -562,6 +596,7 @@ func init() {
 				}
 				jobs = append(jobs, job{c03Cfg{M: 1, Rot: rot, Resend: true}, b + 1}, job{c03Cfg{M: 2, Rot: rot, Resend: true}, b})
 				jobs = append(jobs, job{c03Cfg{M: 2, Rot: rot, Resend: true, ResendNoRcpt: true}, 1})
+				jobs = append(jobs, job{c03Cfg{M: 2, Rot: rot, Presend: true}, b}, job{c03Cfg{M: 3, Rot: rot, Presend: true}, 1})
 			}
 			if !r.Thorough {
 				// quick still covers batches of 3 at bound 1
@@ -601,7 +636,7 @@ func init() {
 				})
 			}
 			r.Reached("reached/transport-failure-class-1", "reached/transport-failure-class-2", "reached/transport-failure-class-3", "reached/transport-failure-class-4", "reached/transport-failure-class-5", "reached/transport-failure-class-6",
-				"reached/signing-failure", "reached/producer-failure", "reached/commit", "reached/resend-committed-all", "reached/resend-after-transport-failure", "reached/resend-refused-locally")
+				"reached/signing-failure", "reached/producer-failure", "reached/commit", "reached/resend-committed-all", "reached/resend-after-transport-failure", "reached/resend-refused-locally", "reached/delivered-before-the-judged-send")
 		},
 		Replay: func(r *vf.Run, kase json.RawMessage) {
 			var k c03Case
